@@ -54,7 +54,7 @@ class Aero(AerotechBase):
 
 
 def plan(tier, seed):
-    n = 25 if tier == "quick" else 500
+    n = 120 if tier == "quick" else 600
     return [dict(seed=seed, shard=i, n=n) for i in range(16)]
 
 
